@@ -109,6 +109,8 @@ package net
 //@ ghostfield hclosed int
 //@ ghostfield chclosed bool
 //@ ghostfield chowned bool
+// chseen: the current goroutine has itself observed the channel closed (a receive returned !ok)
+//@ ghostfield chseen bool
 //@ ghostfield hslot int
 //@ ghostfield chslot int
 
@@ -214,6 +216,11 @@ package net
 //@   trusted
 //@   modifies e.sentcount, e.lastid, e.lasttype, e.lastservice, e.lastobject, e.lastaction
 //@   ensures e.sentcount == old(e.sentcount) + 1 && e.lastid == m.Header.ID && e.lasttype == m.Header.Type && e.lastservice == m.Header.Service && e.lastobject == m.Header.Object && e.lastaction == m.Header.Action
+// Removing a handler may close the queues of live handlers (and only those).
+//@ interface (e EndPoint) RemoveHandler(id int) (err error)
+//@   trusted
+//@   modifies allof(chclosed), allof(chowned), e.nhandlers
+//@   ensures forall q int {q.chclosed} :: !old(q.chowned) ==> q.chclosed == old(q.chclosed) && q.chowned == old(q.chowned)
 //@ interface (e EndPoint) MakeHandler(f Filter, queue chan<- *Message, cl Closer) (result int)
 //@   trusted
 //@   modifies e.nhandlers
